@@ -550,7 +550,7 @@ class Interproc:
             return None
         tix0 = b.locals[0]["t"]
         ty0 = self.f.types[tix0]
-        ret = {"iv": None, "alias": "?", "ref": "?", "opt": "?", "rels": None, "fields": None, "exit_iv": None, "exit_rel": None}
+        ret = {"iv": None, "alias": "?", "ref": "?", "opt": "?", "rels": None, "fields": None, "exit_iv": None, "exit_rel": None, "taint": set()}
         first = True
         ex = self.exit_facts(b, res)
         ret["exit_iv"], ret["exit_rel"] = ex
@@ -559,6 +559,8 @@ class Interproc:
             # numeric
             if an.is_num(tix0):
                 val = v if (v is not None and v[0] in ("n", "iv")) else ("n", ("v", 0, ()), 0)
+                if an.mag and (an.mag_tainted(st, val) or an.term_tainted(st, ("v", 0, ()))) and not an.mag_bounded(st, val, deep=False):
+                    ret["taint"].add(())        # C03: the returned number may carry an unbounded magnitude from a source inside
                 i = st.val_iv(val)
                 r = an.ty_range(tix0) or FULL
                 i = absdom.iv_meet(i, r)
@@ -620,6 +622,8 @@ class Interproc:
                     t = ("v", 0, steps)
                     sv = st.sym.get((0, steps))
                     val = sv if (sv is not None and sv[0] in ("n", "iv")) else ("n", t, 0)
+                    if an.mag and (an.mag_tainted(st, val) or an.term_tainted(st, t)) and not an.mag_bounded(st, val, deep=False):
+                        ret["taint"].add(steps)
                     i = absdom.iv_meet(st.val_iv(val), an.ty_range(ftix) or FULL)
                     al = val if (val[0] == "n" and (val[1] is None or self._ret_term_ok(b, val[1]))) else None
                     if al is None and val[0] == "n":
@@ -1085,6 +1089,8 @@ class Interproc:
             st.kill(d, whole_local=not d[1])
             t = ("v", d[0], d[1])
             st.set_iv(t, i[0], i[1])
+            if an.mag and () in (ret.get("taint") or ()):
+                st.taint = st.taint | {t}
             me = ("n", t, 0)
             for (k, pt), c in (ret.get("rels") or {}).items():
                 w = self.instantiate_term(an, ctx, pt)
@@ -1109,6 +1115,8 @@ class Interproc:
                     w = self.instantiate_val(an, ctx, al)
                     if w is not None and w[0] == "n":
                         st.add_eq(("n", t, 0), w)
+                if an.mag and steps in (ret.get("taint") or ()):
+                    st.taint = st.taint | {t}
             return "stored"
         return None
 
